@@ -77,8 +77,10 @@ fn boundaries(v: &Vector) -> Option<Vec<u64>> {
     Some(b)
 }
 
+/// all probabilities are multiples of the draw resolution 2^-23: every partial
+/// sum is exactly representable in f32 and the expected counts are exact
 fn is_dyadic64(v: &Vector) -> bool {
-    v.probs.iter().all(|p| (*p * 64.0).fract() == 0.0)
+    v.probs.iter().all(|p| (*p as f64 * 8388608.0).fract() == 0.0)
 }
 
 fn gen_vector(g: &mut Gen) -> Vector {
@@ -96,7 +98,7 @@ fn gen_vector(g: &mut Gen) -> Vector {
         };
         targets.push(t);
     }
-    let style = g.below(6);
+    let style = g.below(8);
     let probs: Vec<f32> = loop {
         let ps: Vec<f32> = match style {
             0 => {
@@ -146,6 +148,18 @@ fn gen_vector(g: &mut Gen) -> Vector {
                     })
                     .collect()
             }
+            6 | 7 => {
+                // grid-aligned: n_i * 2^-23 with a total a few draw steps below 1
+                // (or anywhere), so that the no-transition remainder is tiny
+                let short = if style == 6 { g.below(9) } else { g.below(GRID / 2) };
+                let total = GRID - short;
+                let mut cuts: Vec<u64> = (0..k - 1).map(|_| 1 + g.below(total - 1)).collect();
+                cuts.push(0);
+                cuts.push(total);
+                cuts.sort();
+                cuts.dedup();
+                cuts.windows(2).map(|w| (w[1] - w[0]) as f32 / GRID as f32).collect()
+            }
             4 => {
                 if k == 1 {
                     vec![*g.pick(&[1.0f32, 0.99999994, 0.5, 1.0 / 8388608.0])]
@@ -163,6 +177,8 @@ fn gen_vector(g: &mut Gen) -> Vector {
             break ps;
         }
     };
+    let mut targets = targets;
+    targets.truncate(probs.len());
     Vector { targets, probs }
 }
 
